@@ -1,7 +1,7 @@
 (* Extraction of the executable model to OCaml (ExtrOcamlBasic only: bool, option, unit,
    list, prod, sumbool, sumor are mapped to OCaml's; Z, N, positive, nat stay inductive). *)
 From Coq Require Import Extraction ExtrOcamlBasic ZArith List.
-From PV Require Import Model.FD Model.Term Model.Subst Model.Unify Model.State Model.Engine.
+From PV Require Import Model.FD Model.Term Model.Subst Model.Unify Model.State Model.Engine Model.LTermOps.
 Extraction Language OCaml.
 Set Extraction AccessOpaque.
 Extraction "model.ml"
@@ -11,4 +11,6 @@ Extraction "model.ml"
   fd_from_vec fd_from_vec_nodedup fd_from_range fd_from_value
   term_eqb list_term improper_term walk_star wk unify occurs dfuel
   state_unify state_disunify empty_state
-  query_goal start sfuel run_query relevant_constraints.
+  query_goal start sfuel run_query relevant_constraints
+  lt_iter lt_iter_mut_pinned lt_is_list lt_is_empty lt_is_non_empty_list lt_is_improper lt_head lt_tail lt_index
+  lt_contains lt_collect lt_improper lt_extend hash_tokens.
